@@ -55,6 +55,21 @@ int main(int argc, char** argv) {
       n_fopen = n_fclose = 0;
       cur_exec++; ev_begin("reset"); ev_end(); continue;
     }
+    if (hc_is(0, "fullclose")) {
+      /* a close that FAILS (the flush of buffered bytes to /dev/full is refused): IOError - and the stream has been closed by
+         the C library all the same, once; deleting the File afterwards must not close it again */
+      long c0 = n_fclose; volatile var ff = NULL; const char* x1 = ""; const char* x2 = "";
+      HC_TRY(ff = new_raw(File, $S("/dev/full"), $S("wb")));
+      if (ff) {
+        unsigned char b8[8] = { 1, 2, 3, 4, 5, 6, 7, 8 };
+        HC_TRY(swrite(ff, b8, 8));
+        HC_TRY(sclose(ff)); x1 = hc_exc;
+        int cleared = ((struct File*)ff)->file == NULL;
+        HC_TRY(del_raw(ff)); x2 = hc_exc;
+        ev_begin("fullclose"); ev_str("exc", x1); ev_str("delexc", x2); ev_int("cleared", cleared); ev_int("closes", n_fclose - c0); ev_int("line", cur_line); ev_end();
+      } else { ev_begin("fullclose"); ev_str("exc", "noopen"); ev_str("delexc", ""); ev_int("cleared", 1); ev_int("closes", 1); ev_int("line", cur_line); ev_end(); }
+      continue;
+    }
     int o = (int)hc_int(1);
     if (o <= 0 || o >= MAXO) return 9;
     if (hc_is(0, "new")) {
